@@ -50,7 +50,7 @@ from docutils.writers import Writer
 from docutils.parsers.rst.directives.admonitions import BaseAdmonition # type: ignore[import-untyped]
 from docutils.readers.standalone import Reader as StandaloneReader
 from docutils.utils import Reporter
-from docutils.parsers.rst import Directive, directives
+from docutils.parsers.rst import Directive, directives, roles
 from docutils.transforms import Transform, frontmatter
 
 from pydoctor.epydoc.markup import Field, ParseError, ParsedDocstring, ParserFunction
@@ -100,10 +100,17 @@ def parse_docstring(docstring: str,
         r"(:py)?:(mod|func|data|const|class|meth|attr|exc|obj):", "", docstring
     )
 
-    publish_string(docstring, writer=writer, reader=reader,
-                   settings_overrides={'report_level':10000,
-                                       'halt_level':10000,
-                                       'warning_stream':None})
+    # The ".. role::" directive registers the new role in a table that is global to the process:
+    # restore it, such that a docstring can't change the way the next ones are parsed.
+    saved_roles = dict(roles._roles)
+    try:
+        publish_string(docstring, writer=writer, reader=reader,
+                    settings_overrides={'report_level':10000,
+                                        'halt_level':10000,
+                                        'warning_stream':None})
+    finally:
+        roles._roles.clear()
+        roles._roles.update(saved_roles)
 
     document = writer.document
     visitor = _SplitFieldsTranslator(document, errors)
